@@ -9,6 +9,9 @@ NOTES = {
  "C01": "filter theorem, exact verdict predicate, owner uniqueness and global one-to-one for full expansion, composition with the candidate pipeline (pipeline_then_filter_exact); block and attractor-seed expansion: global one-to-one theorems for diagrams with stubs (expand_block_one_to_one, expand_aseeds_one_to_one) under tape contracts (clean blocks / NFVS) decided on every replayed run by extracted exact predicates; compute_attractors_symbolic additionally compared directly with the Filter model on adversarial candidate lists; source-SCC strategy not modelled (known finding D15)",
  "C03": "theorems for every strategy of the statement: BFS, DFS, minimal-space expansion, skip completion, block expansion (expand_block_MinFound: any options, any tape), attractor-seed expansion (expand_aseeds_MinFound) and the source-SCC strategy (expand_scc_MinFound / LeafOK / AllExpanded); all six strategies are modelled and replayed id by id",
  "C05": "PARTIAL with a known finding (D4): the full statement is refuted inside Coq on the model of the documented exclusion rule under an ideal engine (SkipRuleFacts.C05_refuted), what survives is proved (ideal_seeds_sound, structural and cache theorems for skip operations, exact verdict predicates); the model of the rule is compared with the code's per-node seeds on every modelable run",
+ "C06": "end-to-end theorem succession_control_sound (also with skip_feedforward_successions) on top of override_forces / find_drivers_force / successions_spec; the helper functions is_subspace / intersect are translated from the current source on every run and proved equal to the model's; forced_b decides every reported intervention by brute force",
+ "C07": "find_drivers sound / complete / minimal, successions_spec, skip_feedforward filter (ff_filter_incl / covers / antichain); complete intervention lists compared with the model for both settings of skip_feedforward_successions",
+ "C10": "net_to_pn_faithful, restriction and reduction theorems, exact predicate pn_faithful_b on the real nets; place names translated from the current source (py_variable_to_place_spec / py_place_to_variable_spec)",
  "C08": "cover theorem for every option and configuration value (candidates_cover_nfvs), incl. the NFVS reduction lemma (nfvs_reduction); engine contract left: AEON's feedback vertex set hits every negative cycle (checked on every recorded NFVS by the verified no_neg_walk_b); the real pipeline is replayed on the model",
  "C12": "sets via the filter theorem, exact check_sets, and the interleaved reachability model (exact for every heuristic tape); AEON's symbolic fallback is judged through the brute-force attractors",
  "C13": "fuel bounds for all modelled loops: expansions incl. block, attractor-seed and source-SCC expansion (n + 2 levels per nesting depth), symbolic test, candidate pipeline, the filter with the real reachability procedure, the sanitisation rename loop; at run time back-edge budget and watchdog",
